@@ -130,6 +130,7 @@ theorem paramItems_ok (S : Schema) (dec : Dec) (n : Nat) (sd : StructDef) (path 
       · simp at h
       · rename_i f hf
         have hadm : itemAdmissible sd (.sec name items) := by simp [itemAdmissible, hf]
+        dsimp only at h
         split at h
         · simp at h
         · exact lift name _ rfl hadm h
@@ -295,5 +296,68 @@ theorem wfCheck_sound (a b c d : Nat) (h : (Classes.ofTable a b c d).wfCheck = t
     have := List.all_eq_true.mp h3 ch hch
     simpa using this
   · exact ⟨by simpa using h4, by simpa using h5⟩
+
+
+/-! ## lifting the one-struct facts to `config.New` -/
+
+/-- the items `config.New` decodes for a section name: those of the last section so named, or
+none when the section is omitted (2aec039) -/
+def itemsOf (ss : List ASection) (name : List Char) : List AItem :=
+  match lookupSection ss name with
+  | some sec => sec.items
+  | none => []
+
+/-- every spec's section went through `SectionParser` successfully -/
+theorem decodeSpecs_ok_each (S : Schema) (dec : Dec) (fuel : Nat) (ss : List ASection) :
+    ∀ (specs : List SectionSpec) (st st' : Store), decodeSpecs S dec fuel ss specs st = .ok st' →
+    ∀ sp ∈ specs, ∃ st0 st1, sectionParser S dec fuel sp.kind [sp.name] (itemsOf ss sp.name) st0 = .ok st1 := by
+  intro specs
+  induction specs with
+  | nil => intro st st' _ sp hsp; simp at hsp
+  | cons sp0 rest ih =>
+    intro st st' h sp hsp
+    unfold decodeSpecs at h
+    split at h
+    · rename_i hlook
+      split at h
+      · simp at h
+      · rename_i st1 hs
+        rcases List.mem_cons.mp hsp with rfl | hsp'
+        · exact ⟨st, st1, by simpa [itemsOf, hlook] using hs⟩
+        · exact ih _ st' h sp hsp'
+    · rename_i sec hlook
+      split at h
+      · simp at h
+      · rename_i st1 hs
+        rcases List.mem_cons.mp hsp with rfl | hsp'
+        · exact ⟨st, st1, by simpa [itemsOf, hlook] using hs⟩
+        · exact ih _ _ h sp hsp'
+
+/-- **Unknown keys / missing required keys, at `config.New` level (top-level struct sections).**
+If `config.New` succeeds then, for every struct section (`global`, `routing`, `dns`), every item
+of the section it decoded is admissible (known key, no key-less text, rules only where rules
+belong) and every `required` key is written.  (The section decoded for a name is the LAST one so
+named — `config.New` assumes `Merger` has de-duplicated the names; nested sections are checked by
+their own `ParamParser` run, see `unknown_key_rejected_one_struct`.) -/
+theorem configNew_ok_sections (S : Schema) (dec : Dec) (fuel : Nat) (ss : List ASection) (st' : Store)
+    (h : configNew S dec fuel ss = .ok st') (sp : SectionSpec) (hsp : sp ∈ S.specs) (sid : Nat)
+    (hkind : sp.kind = .struct sid) :
+    ∃ sd, S.structs[sid]? = some sd ∧
+      (∀ it ∈ itemsOf ss sp.name, itemAdmissible sd it) ∧
+      (∀ f ∈ sd.fields, f.required = true → ∃ it ∈ itemsOf ss sp.name, it.key? = some f.key) := by
+  unfold configNew at h
+  split at h
+  · simp at h
+  · split at h
+    · simp at h
+    · rename_i st hdec
+      obtain ⟨st0, st1, hs⟩ := decodeSpecs_ok_each S dec fuel ss S.specs [] st hdec sp hsp
+      cases fuel with
+      | zero => simp [sectionParser] at hs
+      | succ m =>
+        simp only [sectionParser, hkind] at hs
+        cases m with
+        | zero => simp [paramParser] at hs
+        | succ n => exact paramParser_ok S dec n sid [sp.name] _ st0 st1 hs
 
 end DaeVerif.C17
